@@ -102,6 +102,14 @@ PROPS = {
             "rule": "random subsets S of {5,7,9,10} plus extra numbers against an every-version-allowed parser on the same buffer/history, and against an every-version-allowed parser fed the allowed prefix only"},
     "C13": {"oracle": "C13", "view": ["outcome", "pkts", "common"], "families": fam_c13,
             "rule": "V5/V7 packets and V9/IPFIX streams whose templates are built from the projected fields (any subset/order, IPv4/IPv6), several records and sets; flat helper on a twin parser"},
+    "C16": {"oracle": "C16", "view": ["outcome", "pkts"],
+            "families": lambda rng, tier: gen.fam_json(rng, n(tier, 200, 2000)) + gen.fam_garbage(rng, n(tier, 60, 400)) + gen.fam_fixed(rng, n(tier, 30, 200)),
+            "mutate_per": {"quick": 1, "thorough": 2},
+            "rule": "results of every kind (all four versions, templates, options, data with every value kind incl. 128-bit counters, NaN/infinite floats, non-UTF-8 strings, zero-length values, error elements with arbitrary remaining bytes); serde_json text produced twice by the harness and by a twin parser fed the same history, read back with Lean's JSON parser and compared with the model's serialisation tree toJ of the decoded value"},
+    "C17": {"oracle": "C17", "view": ["outcome", "pkts", "state", "exports", "common"], "two_builds": True,
+            "families": lambda rng, tier: gen.fam_stream(rng, n(tier, 250, 2500), versions=(9, 10), calls=(1, 4)) +
+            gen.fam_stream(rng, n(tier, 150, 1500), versions=(9, 10), calls=(1, 4), lossless=True, simple_ipfix=True) + gen.fam_fixed(rng, n(tier, 20, 100)),
+            "rule": "both feature configurations (two harness builds against the working tree) on conformant V9/IPFIX histories with known-only templates and with templates containing fields the library has no type for"},
     "C14": {"oracle": "C14", "view": ["outcome", "pkts", "state"], "families": fam_c14,
             "rule": "valid packets of every version cut strictly inside (V9: not on a flowset boundary), alone or after other packets, after a template-defining history; twin parser fed the preceding packets only"},
 }
